@@ -190,6 +190,31 @@ def shape_ncmp(item, ob):
         ob.witness(out)
     ob.absorb_engine(E)
 
+def shape_selfeq(item, ob):
+    """`==` on a list compared with itself (both operands hold the SAME allocation, as in `x == x` or `y := x; x == y`): still the
+    element-wise numeric equality (a NaN element makes it false), not a property of the storage"""
+    levels = item
+    E = eng(); xs = [SymNum(l, f'a{i}') for i, l in enumerate(levels)]
+    def run():
+        for s_ in xs: E.assume(*s_.pre)
+        rc = RcObj(Seq([obj_num(s_.obj()) for s_ in xs])); rc.count = 2
+        a = Adt('Seq', 'List', [RcV(rc)]); b = Adt('Seq', 'List', [RcV(rc)])
+        return E.call(None, None, '<core::Seq as PartialEq>::eq', [Ref(Cell(a)), Ref(Cell(b))], ['&core::Seq', '&core::Seq'])
+    want = z3.And(*[s_.kind() != 0 for s_ in xs])          # x == x element-wise: true unless an element is NaN
+    def replay(model):
+        cs = [s_.concrete(model) for s_ in xs]
+        if any(c is None for c in cs): return None
+        ls = [lit(c) for c in cs]
+        if any(l is None for l in ls): return None
+        nan = any(isinstance(c[2], float) and c[2] != c[2] for c in cs)
+        return {'program': 'x := [' + ', '.join(ls) + ']; y := x; [x == x, x == y, [x] == [y]]', 'expect': {'equals': 'OK [0, 0, 0]' if nan else 'OK [1, 1, 1]'}}
+    for pc, kind, res, lg in E.explore(run):
+        ob.paths += 1; name = f'Seq == on the same allocation {levels}'; pref = prefer_all(*xs)
+        if kind == 'panic': ob.panic(name + ' panic-free', pc, res, replay=replay, cls='C08/self-eq/panic', prefer=pref); continue
+        if kind != 'ok': ob.missing(name, f'{kind}: {res}'); continue
+        ob.check(name + ' = element-wise equality', pc, res == want if z3.is_expr(res) else z3.BoolVal(False), replay=replay, cls='C08/self-eq/value', prefer=pref, sample='true iff no element is NaN'); ob.witness('eq')
+    ob.absorb_engine(E)
+
 def shape_incomparable(item, ob):
     """ncmp between different kinds (number vs list, list vs null, ...) must be an error, never an arbitrary answer"""
     ka, kb = item
@@ -213,7 +238,7 @@ def shape_incomparable(item, ob):
 
 def run_shape(item, ob):
     fam, payload = item
-    {'pair': shape_pair, 'ncmp': shape_ncmp, 'incomp': shape_incomparable}[fam](payload, ob)
+    {'pair': shape_pair, 'ncmp': shape_ncmp, 'incomp': shape_incomparable, 'selfeq': shape_selfeq}[fam](payload, ob)
 
 def main(tier, seed, t0):
     global MIR
@@ -227,6 +252,7 @@ def main(tier, seed, t0):
             items.append(('pair', (kernel, 'Complex', l)))
             if l != 'Complex': items.append(('pair', (kernel, l, 'Complex')))
     for la, lb in REAL_PAIRS: items.append(('ncmp', ((0, 0), (la, lb))))
+    for lv in (('Float',), ('IntSmall',), ('Float', 'IntBig'), ('Rational', 'Float')): items.append(('selfeq', lv))
     rnd = random.Random(seed)
     lv3 = ('IntSmall', 'IntBig', 'Rational', 'Float')
     shapes = [(1, 1), (1, 2), (2, 1), (2, 2)] if tier == 'quick' else [(1, 1), (1, 2), (2, 1), (2, 2), (2, 3), (3, 2)]
